@@ -32,6 +32,7 @@ def setup(ctx):
         "IPvFuture hosts are grey; the letter case of an IPv6 zone identifier is significant (interface names), the rest of a host is not",
     ]
     ctx.require("monitor", "accepted_urls", 5000)
+    ctx.require("monitor", "warm_up_calls", 20)
     ctx.require("monitor", "ipv6_urls", 300)
     ctx.require("monitor", "live_roundtrips", 22)
     ctx.require("monitor", "wire_lines_checked", 5000)
@@ -171,6 +172,53 @@ def port_form(text):
     return "empty" if pt == "" else ("default" if pt.lstrip("0") == "1965" else ("zero" if pt.strip("0") == "" else "other"))
 
 
+def warm_up(ctx):
+    """Use the rest of the library in this process before any URL is judged: a client that follows redirects of every
+    shape (absolute, relative, query-only, network-path, dot segments, other schemes), uploads, a pin store.  What
+    parse_url / normalize_url say about a URL is a function of the URL - not of what the process did earlier."""
+    import asyncio
+    import tempfile
+    from pathlib import Path
+
+    from nauyaca.client.session import GeminiClient
+
+    from vf import peers
+
+    targets = ["/moved", "moved-too", "?q=1", "../up", "//127.0.0.1:{port}/net-path", "gemini://127.0.0.1:{port}/abs;v=2", "./here;p", "https://example.org/x", "", "gemini://127.0.0.1:{port}/final?a;b"]
+    state = {"i": 0}
+
+    def behaviour(conn):
+        line = conn.read_line(timeout=3) or b""
+        if line.startswith(b"titan://"):
+            conn.drain(timeout=0.2)
+            conn.send(b"30 /after-upload\r\n")
+        elif b"/start" in line:
+            t = targets[state["i"] % len(targets)].replace("{port}", str(peer.port))
+            conn.send(f"3{state['i'] % 2} {t}\r\n".encode())
+        else:
+            conn.send(b"20 text/gemini\r\nlanded\n")
+        conn.close()
+
+    tmp = tempfile.mkdtemp(prefix="vf-c19w-")
+    with peers.ScriptedPeer(behaviour=behaviour, name="warm-up") as peer:
+        for i in range(len(targets)):
+            state["i"] = i
+            for tofu in (False, True):
+                client = GeminiClient(timeout=5, trust_on_first_use=tofu, tofu_db_path=Path(tmp) / "w.db", verify_ssl=False) if tofu else GeminiClient(timeout=5, verify_ssl=False, trust_on_first_use=False)
+                try:
+                    asyncio.run(client.get(f"gemini://127.0.0.1:{peer.port}/start{i}", follow_redirects=True))
+                except Exception:  # noqa: BLE001
+                    pass
+                ctx.count("monitor", "warm_up_calls")
+        try:
+            asyncio.run(GeminiClient(timeout=5, verify_ssl=False, trust_on_first_use=False).upload(f"gemini://127.0.0.1:{peer.port}/up;x", b"abc", mime_type="text/plain"))
+        except Exception:  # noqa: BLE001
+            pass
+    import shutil
+
+    shutil.rmtree(tmp, ignore_errors=True)
+
+
 def run_l0(ctx):
     rng = ctx.rng("l0")
     if ctx.shard == 0:
@@ -300,6 +348,9 @@ def run_l3(ctx):
 
 
 def run(ctx):
+    # (every other shard judges its URLs in a process that has already used the client, the redirect code and a pin store)
+    if ctx.shard % 2 == 1 or ctx.nshards == 1:
+        warm_up(ctx)
     run_l0(ctx)
     if ctx.shard == 0:
         run_l3(ctx)
